@@ -74,6 +74,8 @@ def run(ctx, rep):
                 ty = 'String'
             elif 'FromVec' in nm:
                 ty = 'Array'
+        if ty is None and 'object::Object::try_int' in str(v):
+            ty = 'Int'
         if v[0] == 'mlocal' or ty is None:
             # follow a local `obj`
             d = f.defs().get(v[1], []) if v[0] == 'mlocal' else []
